@@ -28,6 +28,11 @@ def loop_case(rng):
     if ty in ("int", "float") and rng.random() < 0.6:
         a, b = rng.randint(0, 4), rng.randint(0, 7)
         c = rng.choice([None, 1, 2, 3])
+        if ty == "int" and rng.random() < 0.08:
+            # range bounds around 2**63 and 2**64 (Python integers; the values are a, a+c, ... exactly)
+            base = rng.choice([2 ** 63 - 2, 2 ** 63 + 1, 2 ** 64 - 3, 2 ** 64 + 1, 2 ** 53 - 1])
+            a, b = base + a, base + b
+            bigint = True
         hdr = "%d:%d" % (a, b) + ("" if c is None else ":%d" % c)
         vals = list(range(a, b, c or 1))
         if ty == "float":
